@@ -11,6 +11,11 @@ impl ActTask for Branch {
         task.set_emit_disabled(true);
         if !self.needs.is_empty() {
             task.set_state(TaskState::Pending);
+            // a needed sibling may already be finished when this branch is initialized:
+            // nobody would wake it up later
+            if task.is_ready() {
+                task.set_state(TaskState::Ready);
+            }
             return Ok(());
         }
 
@@ -36,6 +41,11 @@ impl ActTask for Branch {
 
                 if branch_count > 1 {
                     task.set_state(TaskState::Pending);
+                    // all the siblings may already be decided when the else branch is
+                    // initialized last: nobody would wake it up later
+                    if task.is_ready() {
+                        task.set_state(TaskState::Ready);
+                    }
                 }
 
                 return Ok(());
